@@ -14,6 +14,8 @@ from vlib.runner import run_one
 by = {}
 for f in sorted(glob.glob(os.path.join(ROOT, "seeded", "*", "replay-*.json"))):
     sid = os.path.basename(os.path.dirname(f))
+    if json.load(open(os.path.join(os.path.dirname(f), "meta.json"))).get("retired"):
+        continue
     chk = os.path.basename(f).split("-")[1]
     d = json.load(open(f))
     spec = d["spec"]
